@@ -356,6 +356,70 @@ def probe(native):
             "atomics": tr[3] == "object", "sab": tr[4] == "function", "resize": tr[5] == "function"}
 
 
+BLOCK_COPY_JS = r"""
+// Exhaustive small matrix of the overlapping block copies (copyWithin, set from an overlapping view of the same
+// buffer, slice into the same buffer through species) for every element alignment, on ArrayBuffer- and
+// SharedArrayBuffer-backed arrays, against an element-wise reference on a plain array (read everything, then write).
+function refCopyWithin(src, t, s, e) {
+  var len = src.length, rel = function (v, d) { if (v === undefined) return d; v = Math.trunc(v) || 0; return v < 0 ? Math.max(len + v, 0) : Math.min(v, len); };
+  var to = rel(t, 0), from = rel(s, 0), fin = rel(e, len), count = Math.min(fin - from, len - to), out = src.slice();
+  for (var i = 0; i < count; i++) out[to + i] = src[from + i];
+  return out;
+}
+function run(T, n, shared, off, big) {
+  var bad = 0, first = null, cases = 0;
+  var B = shared ? SharedArrayBuffer : ArrayBuffer;
+  function fresh() { var b = new B(off + n * T.BYTES_PER_ELEMENT + 8); var a = new T(b, off, n); for (var i = 0; i < n; i++) a[i] = big ? BigInt(i + 1) : i + 1; return a; }
+  var vals = [undefined]; for (var v = -2; v <= n + 1; v++) vals.push(v);
+  for (var ti = 1; ti < vals.length; ti++) for (var si = 1; si < vals.length; si++) for (var ei = 0; ei < vals.length; ei += (n > 20 ? 5 : 1)) {
+    var a = fresh(), before = Array.from(a);
+    a.copyWithin(vals[ti], vals[si], vals[ei]);
+    var got = Array.from(a).join(), exp = refCopyWithin(before, vals[ti], vals[si], vals[ei]).join();
+    cases++;
+    if (got !== exp) { bad++; if (first === null) first = T.name + (shared ? '/shared' : '') + ' off=' + off + ' copyWithin(' + vals[ti] + ',' + vals[si] + ',' + vals[ei] + ') got ' + got + ' expected ' + exp; }
+  }
+  // set() from an overlapping view of the same buffer
+  for (var d = 0; d < n; d++) for (var m = 1; m + d <= n; m++) {
+    var a = fresh(), before = Array.from(a);
+    a.set(a.subarray(0, m), d);
+    var exp = before.slice(); for (var i = 0; i < m; i++) exp[d + i] = before[i];
+    cases++;
+    if (Array.from(a).join() !== exp.join()) { bad++; if (first === null) first = T.name + (shared ? '/shared' : '') + ' set(subarray(0,' + m + '),' + d + ') got ' + Array.from(a).join() + ' expected ' + exp.join(); }
+    var a2 = fresh(), before2 = Array.from(a2);
+    a2.set(a2.subarray(d, d + m), 0);
+    var exp2 = before2.slice(); for (var i = 0; i < m; i++) exp2[i] = before2[d + i];
+    cases++;
+    if (Array.from(a2).join() !== exp2.join()) { bad++; if (first === null) first = T.name + (shared ? '/shared' : '') + ' set(subarray(' + d + ',' + (d + m) + '),0) got ' + Array.from(a2).join() + ' expected ' + exp2.join(); }
+  }
+  print(T.name, shared ? 'shared' : 'plain', 'off=' + off, 'cases=' + cases, 'bad=' + bad, first === null ? '' : first);
+}
+var plan = [[Uint8Array, PLEN, 0], [Uint8Array, 26, 3], [Int16Array, 14, 2], [Int32Array, 12, 0], [Int32Array, 9, 4], [Float32Array, 10, 4], [Float64Array, 8, 0], [Float64Array, 6, 8]];
+for (var p = 0; p < plan.length; p++) for (var sh = 0; sh < 2; sh++) run(plan[p][0], plan[p][1], sh === 1, plan[p][2], false);
+for (var sh = 0; sh < 2; sh++) { run(BigInt64Array, 7, sh === 1, 0, true); run(BigUint64Array, 5, sh === 1, 8, true); }
+"""
+
+
+def block_copy_matrix(chk, native, thorough):
+    src = BLOCK_COPY_JS.replace("PLEN", "40" if thorough else "33")
+    r = runner.run_bvh(native, "session", [{"id": "blockcopy", "steps": [{"op": "eval", "src": src}]}], "c15m", shards=1, timeout=600)[0]
+    if r.get("fatal"):
+        f = str(r["fatal"])
+        if f.startswith(("panic", "died")):
+            chk.violation("[native] the block-copy matrix fails internally: %s" % f[:200], {"kind": "blockcopy", "src": src})
+        else:
+            chk.inconc("blockcopy:" + f[:20])
+        return
+    c = r["steps"][0]["c"]
+    lines = r.get("trace") or []
+    if not c.startswith("value:") or len(lines) < 20:
+        chk.violation("[native] the block-copy matrix did not complete: %s (%d lines)" % (c[:100], len(lines)), {"kind": "blockcopy", "src": src})
+        return
+    for l in lines:
+        if " bad=0" not in l:
+            chk.violation("[native] overlapping block copy differs from the element-wise reference: %s" % l[:400], {"kind": "blockcopy", "src": src})
+            return
+
+
 def run(tier, seed):
     chk = core.Check(PID, tier, seed)
     thorough = tier == "thorough"
@@ -425,6 +489,7 @@ def run(tier, seed):
         pool.close()
     if miri is not None:
         miri_info = miri.collect(chk, max(60, 1320 - (time.time() - chk.t0)))
+    block_copy_matrix(chk, native, thorough)
     replay_known(chk, findings, native)
     chk.assumptions = [
         "vlib/models/bytes.py (ECMA-262 2024 text: IsTypedArrayOutOfBounds / IsViewOutOfBounds re-evaluated per access, conversions by exact integer arithmetic) is the specification",
